@@ -1169,6 +1169,11 @@ def run(ctx):
     t0 = time.time()
     run_status(ctx, rng, terms, print_terms, parse_terms, gen_histories(rng, ctx.tier))
     t1 = time.time()
+    import c14_overlap
+    overlap_terms = []
+    c14_overlap.run_status_overlap(ctx, rng, overlap_terms)
+    c14_overlap.run_iface_overlap(ctx, rng, overlap_terms)
+    t1b = time.time()
     run_logs(ctx, rng, terms)
     run_details(ctx, rng, terms)
     t2 = time.time()
@@ -1179,9 +1184,13 @@ def run(ctx):
     create_terms = []
     c14_create.run_create(ctx, rng, create_terms)
     t4 = time.time()
-    ctx.extra['drive_s'] = {'status': round(t1 - t0, 1), 'logs+details': round(t2 - t1, 1), 'instance': round(t3 - t2, 1),
+    ctx.extra['drive_s'] = {'status': round(t1 - t0, 1), 'overlap': round(t1b - t1, 1), 'logs+details': round(t2 - t1b, 1), 'instance': round(t3 - t2, 1),
                             'creation': round(t4 - t3, 1)}
     _finish_terms(ctx, terms, 'check_update', 'C14 protocol: operation trace and files after every fault vs Fs.Model.exec/run', 12)
+    _finish_terms(ctx, overlap_terms, 'check_overlap',
+                  'C14 overlapping updates: interleaved trace, state file after every operation and files after every fault vs '
+                  'Fs.Model.interleave/exec/run', 3)
+    ctx.extra['overlaps_modelled'] = len(overlap_terms)
     _finish_terms(ctx, create_terms, 'check_create',
                   'C14 creation path: trace, removal of the instance and files after every fault vs Fs.Model.exec2', 3)
     _finish_terms(ctx, print_terms, 'check_print', 'C14 codec: Status.writeToStream vs Fs.Model.status_print', 60)
